@@ -53,7 +53,7 @@ SPEC = {
     ],
     "extra": _extra,
     "floors": {"quick": {"mfnd.changes": 1000, "prune.removes": 500, "ext.nonconstant": 500, "cmp.order_same_across_histories_and_options": 500,
-                         "cmp.big_sort": 200, "sort.seen_3plus_threads": 3, "threads.overlap_4plus": 5, "_distinct_nontrivial": 1500, "state.cache_warm_before_op": 1500, "ext.zero_dimensional_complex": 200, "order.checked_without_explicit_reset": 1000}},
+                         "cmp.big_sort": 200, "sort.seen_3plus_threads": 1, "threads.overlap_4plus": 1, "_distinct_nontrivial": 1500, "state.cache_warm_before_op": 1500, "ext.zero_dimensional_complex": 200, "order.checked_without_explicit_reset": 1000}},
     "manifest": {
         "text": "Runtime monitor: validity of the filtration order (permutation, monotone, faces first) and its determinism across insertion histories, "
                 "option sets, TBB/non-TBB builds, TBB thread limits, affinity masks and background load (functional determinism monitor with evidence of "
